@@ -307,15 +307,120 @@ Theorem kappa_integrand : forall e vw xi v T I,
 Proof. exact kappa_parts. Qed.
 Print Assumptions kappa_integrand.
 
+(** ** efficiency factor: which waves are integrated, and from which state *)
+Lemma kappaPlan_cases e vw vp vm Tp Tm :
+  let P := kappaPlan e vw vp vm Tp Tm in
+  (vw < vJ e -> shock_kappa e (mu vw vp) (vw, Tp) < 0 -> vw <> vp ->
+     fst P = (1, mu vw vp, vw, Tp)) /\
+  (~ (vw < vJ e /\ shock_kappa e (mu vw vp) (vw, Tp) < 0 /\ vw <> vp) ->
+     fst P = (0, 0, 0, 0)) /\
+  (csqLowT e Tm < vw ^ 2 -> snd P = (1, mu vw vm, vw, Tm)) /\
+  (~ csqLowT e Tm < vw ^ 2 -> snd P = (0, 0, 0, 0)).
+Proof.
+  intro P. subst P. unfold kappaPlan. cbv zeta.
+  unfold boostVelocity, mu in *.
+  repeat split; intros;
+    repeat match goal with |- context [Rlt_dec ?x ?y] => destruct (Rlt_dec x y) end;
+    repeat match goal with |- context [Req_EM_T ?x ?y] => destruct (Req_EM_T x y) end;
+    cbn [andb negb fst snd]; try reflexivity; try contradiction; try (exfalso; lra);
+    try (exfalso; tauto).
+Qed.
+
+(** ** the residual whose zero findMatching returns *)
+Lemma shootResidual_value e vw vp :
+  shootResidual e vw vp = shockTn e vw vp (snd (fst (matchAt e vw vp))) - Tnucl e.
+Proof.
+  unfold shootResidual. destruct (matchAt e vw vp) as [[[a b] c] d]. cbn [fst snd]. ring.
+Qed.
+
+(** * Property theorems (continued) *)
+
+Theorem kappa_plan : forall e vw vp vm Tp Tm,
+  let P := kappaPlan e vw vp vm Tp Tm in
+  (vw < vJ e -> shock_kappa e (mu vw vp) (vw, Tp) < 0 -> vw <> vp ->
+     fst P = (1, mu vw vp, vw, Tp)) /\
+  (~ (vw < vJ e /\ shock_kappa e (mu vw vp) (vw, Tp) < 0 /\ vw <> vp) ->
+     fst P = (0, 0, 0, 0)) /\
+  (csqLowT e Tm < vw ^ 2 -> snd P = (1, mu vw vm, vw, Tm)) /\
+  (~ csqLowT e Tm < vw ^ 2 -> snd P = (0, 0, 0, 0)).
+Proof. exact kappaPlan_cases. Qed.
+Print Assumptions kappa_plan.
+
+(** COMPOSITION.  The deflagration/hybrid branch of findMatching returns
+    matchDeflagOrHyb(vw, v+) with v+ a zero of the generated `shootResidual` (structural fact of
+    the generator + this definition).  If (A1) solve_ivp followed the generated shockDE from the
+    wall state (mu vw v+, vw, T+) down to the terminal event, (A2) root_scalar returned a zero of
+    the generated TiiShock for the generated front state, then the profile obeys the
+    conservation laws of a self-similar flow at every point, ends on the shock front
+    mu(xi,v) xi = cs^2(T), and the energy flux is continuous there into plasma at rest at
+    exactly the nucleation temperature of the solver: the returned matching reaches Tn.
+    xiF, TF : the profile (xi(v), T(v)) produced by the integrator; vS its last velocity. *)
+Theorem returned_matching_reaches_Tn : forall e vw vp (xiF TF : R -> R) vS,
+  let Tp := snd (fst (matchAt e vw vp)) in
+  let v0 := mu vw vp in
+  shootResidual e vw vp = 0 ->
+  ~ 0 < mu vw v0 * vw - csqHighT e Tp -> vw <> vp ->
+  0 < vS <= v0 -> v0 < 1 ->
+  xiF v0 = vw -> TF v0 = Tp ->
+  (forall v, vS <= v <= v0 ->
+     0 < TF v /\ 0 < xiF v < 1 /\ wHighT e (TF v) <> 0 /\ csqHighT e (TF v) <> 0 /\
+     derivable_pt_lim xiF v (fst (shockDE e v (xiF v, TF v) true)) /\
+     derivable_pt_lim TF v (snd (shockDE e v (xiF v, TF v) true))) ->
+  shock e vS (xiF vS, TF vS) = 0 ->
+  (forall vm xi Tm, frontState e vw vp Tp vS (xiF vS) (TF vS) = (vm, xi, Tm) ->
+     TiiShock e vm xi Tm (shockTn e vw vp Tp) = 0) ->
+  (forall v, vS <= v <= v0 -> exists X Y E P,
+      derivable_pt_lim xiF v X /\ derivable_pt_lim TF v Y /\
+      v_laws (wHighT e (TF v)) (csqHighT e (TF v)) (TF v) (xiF v) v X Y E P) /\
+  mu (xiF vS) vS * xiF vS = csqHighT e (TF vS) /\
+  energy_flux (wHighT e (Tnucl e)) (xiF vS) =
+  energy_flux (wHighT e (TF vS)) (mu (xiF vS) vS).
+Proof.
+  intros e vw vp xiF TF vS Tp v0 Hroot Hbr Hne HvS Hv0 Hx0 HT0 Hode Hev Htii.
+  assert (HTn : shockTn e vw vp Tp = Tnucl e).
+  { rewrite shootResidual_value in Hroot. fold Tp in Hroot. lra. }
+  split; [|split].
+  - intros v Hv. destruct (Hode v Hv) as (H1 & H2 & H3 & H4 & H5 & H6).
+    assert (Hvv : 0 < v < 1) by lra.
+    destruct (shockDE_is_similarity_flow e v (xiF v) (TF v) H1 Hvv H2 H3 H4) as ((E & P & HL) & _).
+    exists (fst (shockDE e v (xiF v, TF v) true)), (snd (shockDE e v (xiF v, TF v) true)), E, P.
+    split; [assumption|]. split; [assumption|]. exact HL.
+  - apply shock_zero_iff. exact Hev.
+  - destruct (frontState_cases e vw vp Tp vS (xiF vS) (TF vS)) as (_ & _ & C).
+    fold v0 in C. specialize (C Hbr Hne).
+    specialize (Htii _ _ _ C). rewrite HTn in Htii.
+    assert (HS : vS <= vS <= v0) by lra.
+    destruct (Hode vS HS) as (_ & H2 & _).
+    apply TiiShock_zero_iff in Htii; [exact Htii|nra].
+Qed.
+Print Assumptions returned_matching_reaches_Tn.
+
 (** non-vacuity: ideal gas p = T^4, w = 4 T^4, cs^2 = 1/3; a point inside a shock wave *)
 Example hypotheses_satisfiable :
-  let e := mk_env 1 (1/100) 10 (fun _ => 1/3) (fun _ => 1/3) (fun T => 4 * T ^ 4)
+  let e := mk_env 1 (1/100) 10 (7/10) (fun _ => 1/3) (fun _ => 1/3) (fun T => 4 * T ^ 4)
                   (fun T => 4 * T ^ 4) (fun T => T ^ 4) (fun T => T ^ 4) (fun T => 3 * T ^ 4)
-                  (fun T => 3 * T ^ 4) (1/10) (fun x => x) in
+                  (fun T => 3 * T ^ 4) (1/10) (fun x => x) (fun _ _ => (0, 0, 0, 0))
+                  (fun _ _ _ => 0) in
   0 < 1 /\ 0 < 1/10 < 1 /\ 0 < 6/10 < 1 /\ wHighT e 1 <> 0 /\ csqHighT e 1 <> 0 /\
   fst (shockDE e (1/10) (6/10, 1) true) <> 0.
 Proof.
   cbv zeta. cbn [wHighT csqHighT]. repeat split; try lra.
   rewrite shockDE_shock_value by (cbn [csqHighT]; lra).
   cbn [fst csqHighT]. unfold dxi_dv, gam2, mu. lra.
+Qed.
+
+(** non-vacuity of shock_momentum_const_cs: radiation-like EOS w = T, p = T/4 (cs^2 = 1/3),
+    front at xi = 2/3, fluid velocity 1/4 behind it (mu = 1/2), T = 9 behind, 5 ahead *)
+Example momentum_hypotheses_satisfiable :
+  let e := mk_env 5 (1/100) 10 (7/10) (fun _ => 1/3) (fun _ => 1/3) (fun T => T)
+                  (fun T => T) (fun T => T / 4) (fun T => T / 4) (fun T => 3 * T / 4)
+                  (fun T => 3 * T / 4) (1/10) (fun x => x) (fun _ _ => (0, 0, 0, 0))
+                  (fun _ _ _ => 0) in
+  0 < 2/3 < 1 /\ 0 < mu (2/3) (1/4) < 1 /\ shock e (1/4) (2/3, 9) = 0 /\
+  TiiShock e (1/4) (2/3) 9 5 = 0 /\
+  pHighT e 9 - pHighT e 5 =
+    csqHighT e 9 * ((wHighT e 9 - pHighT e 9) - (wHighT e 5 - pHighT e 5)).
+Proof.
+  cbv zeta. unfold shock, TiiShock, boostVelocity, gammaSq, mu.
+  cbn [wHighT csqHighT pHighT]. repeat split; lra.
 Qed.
